@@ -640,6 +640,11 @@ Next:
 
   const RegOnly& extra_reg = inst.extra_reg();
 
+  // The {evex} option can only select an encoding the instruction has.
+  if (ASMJIT_UNLIKELY(Support::test(options, InstOptions::kX86_Evex) && !common_info.has_flag(InstDB::InstFlags::kEvex))) {
+    return make_error(Error::kInvalidInstruction);
+  }
+
   if (Support::test(options, kAvx512Options)) {
     if (common_info.has_flag(InstDB::InstFlags::kEvex)) {
       // Validate AVX-512 {z}.
